@@ -161,7 +161,31 @@ def _parser_level_unused_is_flagged(ctx):
               where=common.loc(fed[0], fed[1]))
 
 
+def _every_chunk_is_parsed(ctx):
+    """PLSSParser.parse hands EVERY chunk to a ChunkParser (which stages its
+    text as tracts or as unused blocks).  A `continue` in front of that call
+    drops the words of the skipped chunk: they are in no tract and in no flag."""
+    pp = ctx.repo.func('PLSSParser.parse')
+    loops = [l for l in walk_local(pp.node) if isinstance(l, ast.For) and 'blocks' in norm(l.iter)]
+    n = 0
+    for lp in loops:
+        calls = [c for c in ast.walk(lp) if isinstance(c, ast.Call) and dotted(c.func) == 'ChunkParser']
+        if not calls:
+            continue
+        n += 1
+        skips = [x for x in ast.walk(lp) if isinstance(x, (ast.Continue, ast.Break)) and x.lineno < calls[0].lineno]
+        ctx.check(not skips, 'SINK', 'PLSSParser.parse: every chunk is handed to a ChunkParser',
+                  detail_bad=f"the `{type(skips[0]).__name__.lower() if skips else ''}` at line {skips[0].lineno if skips else 0} skips a chunk before "
+                             f"`ChunkParser(...)`: whatever words that chunk holds reach neither a tract nor the unused list (only the "
+                             f"Twp/Rge is reported)", key="SINK|PLSSParser.parse|chunk-skipped", where=common.loc(pp, skips[0]) if skips else None)
+    if n == 0:
+        ctx.undecided('SINK', 'PLSSParser.parse: every chunk is handed to a ChunkParser', 'chunk loop not recognised')
+
+
 def _unused_flow(ctx):
+    from .c05 import every_match_registers      # a staged tract with an EMPTY section list builds no Tract: its block vanishes
+    ctx.attempt(every_match_registers, rule='SINK')
+    ctx.attempt(_every_chunk_is_parsed)
     ctx.attempt(_parser_level_unused_is_flagged)
     safe = ctx.repo.func('ChunkParser.parse_safe')
     t = [norm(s) for s in walk_local(safe.node) if isinstance(s, ast.stmt)]
